@@ -3,7 +3,10 @@ package eng
 import (
 	"bytes"
 	"context"
+	"errors"
 	"fmt"
+	"io"
+	"os"
 	"strings"
 	"time"
 
@@ -34,6 +37,9 @@ type c15Scn struct {
 	// Warm: the Interpreter is reused: a first ExecuteContext with a context that is never
 	// closed runs to completion before the measured call
 	Warm bool `json:"warm,omitempty"`
+	// StdCtx: a standard-library context (WithCancelCause) instead of SimContext; the simulator
+	// still closes it at the chosen instant, with a cause that differs from ctx.Err()
+	StdCtx bool `json:"std_ctx,omitempty"`
 }
 
 var c15Progs = map[string]string{
@@ -51,6 +57,8 @@ END { print m }`,
 	"print-all":    `1`,
 	"print-all-end": `1
 END { print NR }`,
+	"stdin-share": `BEGIN { system(cmdline1); tick(1) }
+{ print "awk:" $0; tick(NR + 1) }`,
 	"range":              `$1 == 2, $1 == 5 { tick(NR) } END { print NR }`,
 	"end":                `END { for (i = 1; i <= N; i++) { tick(i); print "s" i } }`,
 	"outputs":            `BEGIN { for (i = 1; i <= N; i++) { print "s" i; print "f" i > "out1"; print "c" i | cmd; tick(i) } }`,
@@ -65,11 +73,32 @@ END { print NR }`,
 }
 
 var c15Archs = []string{"print-all", "print-all-end", "while", "for", "recursion", "forin", "forin-nobody", "forin-nested", "records", "patterns", "pattern-only", "range", "end", "outputs", "getline-file"}
-var c15ChildArchs = []string{"system-loop", "getline-cmd", "big-to-cmd", "blocked-system", "blocked-close", "blocked-getline", "blocked-grandchild"}
+var c15ChildArchs = []string{"stdin-share", "system-loop", "getline-cmd", "big-to-cmd", "blocked-system", "blocked-close", "blocked-getline", "blocked-grandchild"}
+
+// c15Ctx is a context the simulator can close at an instant of its choosing.
+type c15Ctx interface {
+	context.Context
+	Cancel(err error)
+	Cancelled() bool
+}
+
+// c15StdCtx is a standard-library context created with WithCancelCause: its Err() is
+// context.Canceled while context.Cause() is a different, caller-supplied error.
+type c15StdCtx struct {
+	context.Context
+	cancel context.CancelCauseFunc
+}
+
+func newC15StdCtx() *c15StdCtx {
+	ctx, cancel := context.WithCancelCause(context.Background())
+	return &c15StdCtx{ctx, cancel}
+}
+func (c *c15StdCtx) Cancel(err error) { c.cancel(errors.New("request budget used up")) }
+func (c *c15StdCtx) Cancelled() bool  { return c.Err() != nil }
 
 type c15State struct {
 	ticks      int
-	ctx        *core.SimContext
+	ctx        c15Ctx
 	cancelTick int
 	cancelErr  error
 	onCancel   func()
@@ -145,6 +174,7 @@ func (c15Engine) Gen(r *core.Rand, tier string, i int) any {
 	sc := &c15Scn{}
 	sc.Buffered = r.Chance(1, 3)
 	sc.Warm = r.Chance(1, 5)
+	sc.StdCtx = r.Chance(1, 4)
 	if r.Chance(1, 14) {
 		sc.Arch = core.Pick(r, c15ChildArchs)
 		sc.N = r.Range(2, 8)
@@ -154,6 +184,9 @@ func (c15Engine) Gen(r *core.Rand, tier string, i int) any {
 			return sc
 		}
 		sc.Cancel = core.Pick(r, []string{"never", "script", "script", "step"})
+		if sc.Arch == "stdin-share" {
+			sc.Cancel = "never" // "a context that is never cancelled behaves exactly like Execute"
+		}
 		sc.CancelTick = r.Range(1, sc.N)
 		sc.CancelStep = r.Range(1, sc.N*12)
 		return sc
@@ -241,8 +274,19 @@ func c15Exec(sc *c15Scn, cancel string, cancelStep, cancelTick int, log *core.Lo
 	defer fs.Remove()
 	_ = fs.Put("in1", c15Input(40))
 	sink := core.NewSimSink("stdout", nil)
+	var stdin io.Reader = bytes.NewReader(c15Input(sc.Lines))
+	if sc.Arch == "stdin-share" {
+		// a real file: the child started by system() shares the descriptor (and its offset)
+		_ = fs.Put("!stdin", []byte("one\ntwo\nthree\n"))
+		f, ferr := os.Open(fs.Path("!stdin"))
+		if ferr != nil {
+			core.Fatal("C15: stdin file: %v", ferr)
+		}
+		_ = os.Remove(fs.Path("!stdin"))
+		stdin = f
+	}
 	cfg := &interp.Config{
-		Stdin: bytes.NewReader(c15Input(sc.Lines)), Output: sink, Error: core.NewSimSink("stderr", nil), Funcs: c15funcs, Environ: []string{},
+		Stdin: stdin, Output: sink, Error: core.NewSimSink("stderr", nil), Funcs: c15funcs, Environ: []string{},
 		OpenFile: fs.Open, NewlineOutput: interp.RawNewlineMode,
 		Vars: []string{"N", fmt.Sprint(sc.N), "D", fmt.Sprint(sc.Depth)},
 	}
@@ -274,9 +318,9 @@ func c15Exec(sc *c15Scn, cancel string, cancelStep, cancelTick int, log *core.Lo
 			fmt.Fprintf(&lines, "l%d\n", i)
 		}
 		cfg.Vars = append(cfg.Vars, "cmd", "co;save:"+fs.Path("cmdsaved"), "cmdexit", "ce;exit:0",
-			"cmdlines", "cl;emit:"+lines.String()+";exit:0", "cmdhang", "h;hang", "cmdspawn", "h;spawn:g;hang")
+			"cmdlines", "cl;emit:"+lines.String()+";exit:0", "cmdhang", "h;hang", "cmdspawn", "h;spawn:g;hang", "cmdline1", "l1;line1;exit:0")
 	}
-	var ctx *core.SimContext
+	var ctx c15Ctx
 	cerr := context.Canceled
 	if sc.Deadline {
 		cerr = context.DeadlineExceeded
@@ -289,6 +333,9 @@ func c15Exec(sc *c15Scn, cancel string, cancelStep, cancelTick int, log *core.Lo
 	}
 	if cancel != "plain" {
 		ctx = core.NewSimContext()
+		if sc.StdCtx && !sc.Deadline {
+			ctx = newC15StdCtx()
+		}
 		st.ctx, st.cancelErr, st.onCancel = ctx, cerr, markCancel
 		if cancel == "script" {
 			st.cancelTick = cancelTick
